@@ -16,9 +16,20 @@ for d in sorted(glob.glob(os.path.join(os.path.dirname(os.path.dirname(os.path.a
         sig = first.split("]")[0].lstrip("[") if first else ""
         cells.append(f"{p}: {'**caught**' if r['exit'] == 1 else ('inconclusive' if r['exit'] == 2 else 'MISSED')} ({r['wall_s']} s){' `' + sig[:60] + '`' if sig else ''}")
     note = json.load(open(os.path.join(d, "note.json")))["note"] if os.path.exists(os.path.join(d, "note.json")) else ""
-    summary = " ".join(str(meta.get("summary", "")).split())[:230]
-    needs = " ".join(str(meta.get("needs_to_manifest", "")).split())[:200]
+    def clip(t, n):
+        t = " ".join(str(t).split()).replace("|", "/")
+        return t if len(t) <= n else t[: n - 1].rsplit(" ", 1)[0] + " …"
+    summary = clip(meta.get("summary", ""), 210)
+    needs = clip(meta.get("needs_to_manifest", ""), 170)
     rows.append(f"| {name} | {summary} | {needs} | {'yes' if conf.get('confirmed') else ('no' if conf else '?')} | {'; '.join(cells)}{(' — ' + note) if note else ''} |")
-print("| id | change | needs to manifest | confirmed by me | quick check(s) |")
-print("|---|---|---|---|---|")
-print("\n".join(rows))
+table = "| id | change | needs to manifest | confirmed by me | quick check(s) |\n|---|---|---|---|---|\n" + "\n".join(rows)
+import sys
+if "--update-design" in sys.argv:
+    dp = os.path.join(os.path.dirname(os.path.dirname(os.path.abspath(__file__))), "DESIGN.md")
+    d = open(dp).read()
+    a = d.index("<!-- SEEDED-TABLE-BEGIN -->") + len("<!-- SEEDED-TABLE-BEGIN -->")
+    b = d.index("<!-- SEEDED-TABLE-END -->")
+    open(dp, "w").write(d[:a] + "\n" + table + "\n" + d[b:])
+    print(f"DESIGN.md updated with {len(rows)} rows")
+else:
+    print(table)
